@@ -1,5 +1,5 @@
 (* C02 — dependencies (plan level): every dependency is placed in front of its dependent. *)
-From Shred Require Import Base SrcParams Plan PlanObs PlanInv PlanLoc PlanBuild PlanProps PlanLemmas Exec ExecProps ExecPlan.
+From Shred Require Import Base SrcParams Plan PlanObs PlanInv PlanLoc PlanBuild PlanProps PlanLemmas Exec ExecProps ExecPlan BatchProps OracleProps.
 
 (* [runs_before b d s]: d sits in an earlier stage than s, or in the same group at a smaller
    index — in both cases d's run has ended before s begins in every execution of the layout
@@ -34,6 +34,17 @@ Theorem C02_placed_in_front_runs_in_front :
   forall l tl t d s, traces_disp l tl t -> lay_before l d s -> precedes (ER d) (EF s) t.
 Proof. exact trace_before. Qed.
 Print Assumptions C02_placed_in_front_runs_in_front.
+
+(* ---- the oracle `deps_ordered` evaluated on the REAL executed layout ---- *)
+Theorem C02_oracle_deps_ordered_meaning :
+  forall rs l, o_deps_ordered rs l = true ->
+  forall r t d, In r rs -> reg_tag r = Some t -> In d (dep_tags rs r) -> before_b l d t = true.
+Proof. exact o_deps_ordered_meaning. Qed.
+Print Assumptions C02_oracle_deps_ordered_meaning.
+Theorem C02_oracle_deps_ordered_holds_on_model_layouts :
+  forall rs b, plan rs = Ok b -> Forall reg_time_ok1 rs -> NoDup (sys_tags rs) -> o_deps_ordered rs (layout_tags b) = true.
+Proof. exact o_deps_ordered_on_model. Qed.
+Print Assumptions C02_oracle_deps_ordered_holds_on_model_layouts.
 
 Example C02_example :
   let rs := [RSys 1 [97] [] [] [] 3%Z; RSys 2 [98] [[97]] [] [] 3%Z; RSys 3 [99] [[98]; [97]; [97]] [] [] 3%Z] in
